@@ -67,10 +67,43 @@ def generate(out_dir, seed, max_n):
                     name = 'p%02d_n%d_%s_%s' % (t, n, ''.join(map(str, perm)), mode)
                     open(os.path.join(out_dir, name + '.shp'), 'wb').write(shp)
                     open(os.path.join(out_dir, name + '.shx'), 'wb').write(shx)
-                    files.write(json.dumps({'file': name, 'shx': True, 'typed': -1}) + '\n')
+                    files.write(json.dumps({'file': name, 'shx': True, 'typed': t}) + '\n')
                     models.write(json.dumps({'file': name, 'type': t, 'records': recs, 'physical_order': list(perm),
                                              'filler_mode': mode, 'filler_bytes': fill_total,
                                              'trailing_filler': len(f)}) + '\n')
+                    count += 1
+    # layouts with MANY records (amounts straddling powers of two): point records in reversed and
+    # in interleaved physical order, with and without filler
+    for n in ([1025, 4097] if max_n <= 4 else [1025, 4097, 8193, 16385]):
+        for t in (1, 11):
+            g0 = Gen('%d/c14big/%d/%d' % (seed, t, n))
+            recs = []
+            while len(recs) < n:
+                m, with_m, feats = g0.record(t, 0.0, 'mixed')
+                if with_m and not feats:
+                    recs.append(m)
+            bodies = [shpref.enc_record(k + 1, m, True) for k, m in enumerate(recs)]
+            for pname, perm in (('rev', list(range(n - 1, -1, -1))), ('evenodd', list(range(0, n, 2)) + list(range(1, n, 2)))):
+                for mode in ('none', 'all'):
+                    buf = b''
+                    offsets = {}
+                    fill_total = 0
+                    for k in perm:
+                        if mode == 'all':
+                            buf += b'\xa5' * 6
+                            fill_total += 6
+                        offsets[k] = 100 + len(buf)
+                        buf += bodies[k]
+                    shp = shpref.enc_header((100 + len(buf)) // 2, t) + buf
+                    shx = shpref.enc_header(50 + 4 * n, t)
+                    for k in range(n):
+                        shx += struct.pack('>ii', offsets[k] // 2, (len(bodies[k]) - 8) // 2)
+                    name = 'p%02d_n%d_%s_%s' % (t, n, pname, mode)
+                    open(os.path.join(out_dir, name + '.shp'), 'wb').write(shp)
+                    open(os.path.join(out_dir, name + '.shx'), 'wb').write(shx)
+                    files.write(json.dumps({'file': name, 'shx': True, 'typed': t}) + '\n')
+                    models.write(json.dumps({'file': name, 'type': t, 'records': recs, 'physical_order': perm,
+                                             'filler_mode': mode, 'filler_bytes': fill_total, 'trailing_filler': 0}) + '\n')
                     count += 1
     files.close()
     models.close()
